@@ -147,11 +147,20 @@ func builtinProcessors(c *core.Ctx) []*procInfo {
 						if g, ok := (*op).(*ssa.Function); ok {
 							cands = append(cands, resolveWrapper(g))
 						}
+						// a package-level table of functions the method consults: its entries are part of the body
+						if gl, ok := (*op).(*ssa.Global); ok && gl.Pkg != nil && core.PartOf(gl.Pkg, core.PkgOf(props)) {
+							for _, g := range globalFuncs(gl) {
+								cands = append(cands, resolveWrapper(g))
+							}
+						}
 					}
 					// a collaborator behind an unexported single-implementation interface of the package
 					if ci, ok := in.(ssa.CallInstruction); ok && ci.Common().IsInvoke() {
 						if g := core.Seam(ci.Common()); g != nil {
 							cands = append(cands, g)
+						} else {
+							// ... or a strategy object: every implementation may be the one that runs
+							cands = append(cands, core.SeamAll(ci.Common())...)
 						}
 					}
 					for _, g := range cands {
